@@ -3,6 +3,7 @@ SPECIFICATION Spec
 INVARIANT Latched
 INVARIANT PrefixAlways
 INVARIANT ErrNamed
+INVARIANT NoPanic
 PROPERTY Termination
 CHECK_DEADLOCK FALSE
 CONSTANTS
@@ -10,3 +11,5 @@ CONSTANTS
   MAXCOUNT = 3
   FAULTS = 1
   FASTALL = FALSE
+  CNTMOD = 0
+  PANICS = FALSE
